@@ -352,10 +352,17 @@ func (e *CEnv) tr(x *CExpr) CVal {
 		v.inQuant++
 		body := inner.trBool(x.X)
 		v.inQuant--
+		var full *Term
 		if x.Kind == "forall" {
-			return CVal{Forall(bvars, Implies(And(guards...), body)), types.Typ[types.Bool]}
+			full = Implies(And(guards...), body)
+		} else {
+			full = And(And(guards...), body)
 		}
-		return CVal{Exists(bvars, And(And(guards...), body)), types.Typ[types.Bool]}
+		bvars, full = v.reindexQuant(bvars, full)
+		if x.Kind == "forall" {
+			return CVal{Forall(bvars, full), types.Typ[types.Bool]}
+		}
+		return CVal{Exists(bvars, full), types.Typ[types.Bool]}
 	case "un":
 		a := e.tr(x.X)
 		switch x.Op {
@@ -1052,6 +1059,26 @@ func (e *CEnv) trCall(x *CExpr) CVal {
 		}
 		id := v.d.typeID("func:" + x.Args[0].Name)
 		return CVal{IntLit(int64(-1000 - id)), nil}
+	case "beuint", "leuint": // integer value of the first n bytes of a byte string (n constant)
+		b := e.bytesOf(e.tr(x.Args[0]))
+		nn := e.tr(x.Args[1])
+		if !nn.T.isInt() {
+			unsupported("contract: %s needs a constant width", name)
+		}
+		n := int(nn.T.Int.Int64())
+		var sum *Term = IntLit(0)
+		for i := 0; i < n; i++ {
+			sh := 8 * (n - 1 - i)
+			if name == "leuint" {
+				sh = 8 * i
+			}
+			by := Select(e.bArr(b), IntLit(int64(i)))
+			if _, isBV := isBVSort(by.Sort); isBV {
+				by = bv2nat(by)
+			}
+			sum = Add(sum, Mul(IntLitB(Pow2(sh)), by))
+		}
+		return CVal{sum, nil}
 	case "bzeros":
 		n := e.intOf(e.tr(x.Args[0]))
 		return CVal{e.mkBStr(ConstArray(SArr(SInt, v.byteSort()), zeroOfSort(v.byteSort())), n), bstrType}
@@ -1371,4 +1398,82 @@ func (e *CEnv) ghostFieldHeap(gf *SpecFunc, arg *CExpr) (h, key *Term) {
 	}
 	h = v.getHeap(e.st, "GF_"+gf.Name, SArr(SInt, e.sortOfC(rty)))
 	return
+}
+
+// reindexQuant performs the change of variables a = off + i for a bound integer
+// i that is used as an array index only in the form off + i (+ const): the body
+// then reads `select arr a`, which E-matching can trigger on, instead of the
+// arithmetic term `select arr (+ off i)`.  The transformation is an equivalence.
+func (v *Verifier) reindexQuant(bvars []*Term, full *Term) ([]*Term, *Term) {
+	bound := map[string]bool{}
+	for _, b := range bvars {
+		bound[b.Op] = true
+	}
+	for bi, b := range bvars {
+		if b.Sort != SInt {
+			continue
+		}
+		var offKey string
+		var off *Term
+		ok := true
+		seen := map[*Term]bool{}
+		var walk func(t *Term)
+		walk = func(t *Term) {
+			if !ok || seen[t] || t.IsLit {
+				return
+			}
+			seen[t] = true
+			if t.Op == "select" && len(t.Args) == 2 && t.Args[1].Sort == SInt {
+				idx := t.Args[1]
+				cs := map[string]string{}
+				idx.Symbols(cs, map[string]bool{})
+				if _, has := cs[b.Op]; has {
+					coef, rest, lin := linearIn(idx, b.Op)
+					if lin && coef.Sign() == 0 {
+						// only nested occurrences: the inner selects are visited below
+						for _, a := range t.Args {
+							walk(a)
+						}
+						return
+					}
+					if !lin || coef.Cmp(big.NewInt(1)) != 0 {
+						ok = false
+						return
+					}
+					// drop the literal constant of rest
+					m := map[string]*linAtom{}
+					c := new(big.Int)
+					linAccum(rest, big.NewInt(1), m, c)
+					r0 := linBuild(m, new(big.Int))
+					rs := map[string]string{}
+					r0.Symbols(rs, map[string]bool{})
+					for s := range rs {
+						if bound[s] {
+							ok = false
+							return
+						}
+					}
+					key := r0.String()
+					if off == nil {
+						off, offKey = r0, key
+					} else if key != offKey {
+						ok = false
+						return
+					}
+				}
+			}
+			for _, a := range t.Args {
+				walk(a)
+			}
+		}
+		walk(full)
+		if !ok || off == nil || off.isInt() {
+			continue
+		}
+		a := v.fresh("q_a", SInt)
+		full = full.Subst(map[string]*Term{b.Op: Sub(a, off)})
+		bvars[bi] = a
+		bound[a.Op] = true
+	}
+	return bvars, full
 }
